@@ -455,7 +455,8 @@ def run_c18(ck, ctx):
             k = R.randrange(len(pk))
             if pk[k].words: pk[k].words[0] = bytes(9) + b'\x13'
         cases.append(pk[:12] if tier == 'quick' else pk[:40])
-    modes = [(['check', 'all', 'its'], 'cmd=all target=its'), (['check', 'sanity'], 'cmd=sanity'), (['view', 'rdh', '-d'], 'cmd=viewrdh')]
+    # the fourth mode writes the packets of the first packet's link to stdout (`-f <link>`): filter mode has its own wiring (no analysis thread)
+    modes = [(['check', 'all', 'its'], 'cmd=all target=its'), (['check', 'sanity'], 'cmd=sanity'), (['view', 'rdh', '-d'], 'cmd=viewrdh'), (['-f', 'LINK'], 'cmd=filter')]
     jobs = []
     for ci, pk in enumerate(cases):
         data = G.encode(pk); offs = G.offsets(pk) + [len(data)]
@@ -469,15 +470,17 @@ def run_c18(ck, ctx):
                     if via == 'pipe' and c % 2: continue
                     jobs.append((ci, c, args, mtok, via))
     full = {}
+    def real_args(ci, args):
+        return [str(cases[ci][0].rdh['link']) if a == 'LINK' else a for a in args]
     for ci, pk in enumerate(cases):
         data = G.encode(pk)
         for args, mtok in modes:
-            full[(ci, tuple(args))] = L.run_cli(args + ['-E', '9'], data)
+            full[(ci, tuple(args))] = L.run_cli(real_args(ci, args) + ['-E', '9'], data, stats=mtok != 'cmd=filter')
 
     def job(j):
         ci, c, args, mtok, via = j
         data = G.encode(cases[ci])[:c]
-        return L.run_cli(args + ['-E', '9'], data, via=via, timeout=60)
+        return L.run_cli(real_args(ci, args) + ['-E', '9'], data, via=via, timeout=60, stats=mtok != 'cmd=filter')
     res = L.pmap(job, jobs)
     reqs, rj = [], []
     for (ci, c, args, mtok, via), r in zip(jobs, res):
@@ -493,6 +496,15 @@ def run_c18(ck, ctx):
         ncomplete = max(i for i in range(len(offs)) if offs[i] <= c)
         limit = offs[ncomplete]
         if c < 64: continue   # nothing can be analysed; only normal termination is required
+        if mtok == 'cmd=filter':
+            l0 = pk[0].rdh['link']
+            exp = b''.join(q.encode() for q, o in zip(pk, offs) if q.rdh['link'] == l0 and o + q.size() <= c)
+            if 'Init processing failed' in full[(ci, tuple(args))].stderr: exp = b''
+            ck.count('filter_mode_cuts')
+            if not r.stdout.startswith(exp) or len(r.stdout) > len(exp) + 64:
+                ck.violation('prefix', {'what': 'filtered output of the truncated input does not start with exactly the complete matching packets before the cut',
+                                        'cut': c, 'via': via, 'link': l0, 'out_len': len(r.stdout), 'expected_prefix_len': len(exp), 'input_hex': inp.hex()})
+            continue
         fr = full[(ci, tuple(args))]
         want = sorted(e for e in fr.errors if e[0] is not None and e[0] < limit)
         got = sorted(e for e in r.errors if e[0] is not None and e[0] < limit)
